@@ -1,8 +1,8 @@
-(* C03 — every produced image is a well-formed MS-CFB file by an independent checker.  Statements are printed by Check below and compared with C03.expected.  PARTIAL: the checker wf_check (spec/WfImage.v, written from MS-CFB and the property text, sharing no mechanics with the model or the library) is run on the IMPLEMENTATION's bytes after every operation of every generated history — that is the property's oracle applied directly to the code.  Theorems cover the base case (the created image of both versions is accepted), evaluated instances of the inductive step, non-triviality of the checker, and the parts of the invariant W that are proved: FAT cache = FAT on disk through reuse and growth, FAT/DIFAT markers maintained (FatInv/DifatOk), free list disjoint from FAT sectors and naming only FREE cells, removal blanks exactly the removed slot and keeps the sibling tree a search tree without red-red edges.  Also proved (proofs/WfPersist.v): THE PROPERTY FOR NAMESPACE HISTORIES - the checker accepts (all 44 rules) the image of every state satisfying the history invariant of C02 (PInv) with empty streams, no orphan FAT cells, an empty mini stream and blank slots outside the tree; those conditions hold of the fresh file and are kept by create_storage, create_new_stream, remove_storage, remove_stream and the metadata setters; hence for EVERY history of those calls and the queries from a fresh file of either version (up to 6000 calls) the image is well-formed, at every prefix.  NOT proved: histories that write stream data (W for the store layer). *)
+(* C03 — every produced image is a well-formed MS-CFB file by an independent checker.  Statements are printed by Check below and compared with C03.expected.  PARTIAL: the checker wf_check (spec/WfImage.v, written from MS-CFB and the property text, sharing no mechanics with the model or the library) is run on the IMPLEMENTATION's bytes after every operation of every generated history — that is the property's oracle applied directly to the code.  Theorems cover the base case (the created image of both versions is accepted), evaluated instances of the inductive step, non-triviality of the checker, and the parts of the invariant W that are proved: FAT cache = FAT on disk through reuse and growth, FAT/DIFAT markers maintained (FatInv/DifatOk), free list disjoint from FAT sectors and naming only FREE cells, removal blanks exactly the removed slot and keeps the sibling tree a search tree without red-red edges.  Also proved (proofs/WfPersist.v): THE PROPERTY FOR NAMESPACE HISTORIES - the checker accepts (all 44 rules) the image of every state satisfying the history invariant of C02 (PInv) with empty streams, no orphan FAT cells, an empty mini stream and blank slots outside the tree; those conditions hold of the fresh file and are kept by create_storage, create_new_stream, remove_storage, remove_stream and the metadata setters; hence for EVERY history of those calls and the queries from a fresh file of either version (up to 6000 calls) the image is well-formed, at every prefix.  Also proved (proofs/DataWf.v): THE STATIC THEOREM FOR FILES WITH STREAM DATA - the checker accepts (all 44 rules) the image of every state satisfying DBase (Coherent + well-formed entries + root) and DInv (the mini-stream container and MiniFAT chains exist and fit; every stream has start END_OF_CHAIN when empty, a FAT chain of EXACTLY ceil(len / sector) sectors at or above the cutoff, a MiniFAT chain of exactly ceil(len / 64) mini sectors below it; every non-FREE FAT cell and every non-FREE MiniFAT cell has exactly one owner) with a tidy directory; the old theorem for empty streams is a corollary; DInv is preserved by write-back and resize in the non-allocating cases, by growth of a large stream into reused and into appended sectors, and by shrinking a large stream (freed cells become FREE and lose their owner); wf_data_history / wf_data_history_meta: for every history of covered handle operations, queries and metadata setters on a file with data the image is well-formed at every prefix.  NOT proved: preservation of DInv by small-stream growth with mini-sector allocation, by the migrations and by removal of streams with data (evaluated on long runs and a bounded exhaustive search of set_len sequences instead), and the lift of the allocating large-stream theorems into histories. *)
 From Cfb.model Require Import Base Names DirEnt State Alloc Dir Mini Store Handle Open Cfb.
 From Cfb.gen Require Import Consts.
 From Cfb.spec Require Import WfImage.
-From Cfb.proofs Require Import WfProofs CoherenceProofs ReuseProofs DirProofs WalkSafe ReadonlyTotal PersistProofs WfPersist HistoryRefine Progress.
+From Cfb.proofs Require Import WfProofs CoherenceProofs ReuseProofs DirProofs WalkSafe ReadonlyTotal PersistProofs WfPersist DataWf HistoryRefine Progress.
 Set Printing Width 110.
 
 (* base case, version 3 *)
@@ -124,3 +124,87 @@ Theorem C03_well_formed_at_every_prefix_unconditionally : ltac:(let t := type of
 Proof. exact wf_every_prefix_total. Qed.
 Check C03_well_formed_at_every_prefix_unconditionally.
 Print Assumptions C03_well_formed_at_every_prefix_unconditionally.
+
+(* STATIC THEOREM WITH DATA: every state with DBase, DInv (exact chain lengths, unique owner of every non-free sector and mini sector) and a tidy directory has an image the checker accepts *)
+Theorem C03_images_with_stream_data_are_well_formed : ltac:(let t := type of dinv_image_wf in exact t).
+Proof. exact dinv_image_wf. Qed.
+Check C03_images_with_stream_data_are_well_formed.
+Print Assumptions C03_images_with_stream_data_are_well_formed.
+
+(* the side conditions of the namespace theorem imply DInv *)
+Theorem C03_empty_streams_are_a_special_case : ltac:(let t := type of empty_dinv in exact t).
+Proof. exact empty_dinv. Qed.
+Check C03_empty_streams_are_a_special_case.
+Print Assumptions C03_empty_streams_are_a_special_case.
+
+(* write-back within the capacity of the chain *)
+Theorem C03_covered_writes_keep_the_ownership_invariant : ltac:(let t := type of covered_write_dinv in exact t).
+Proof. exact covered_write_dinv. Qed.
+Check C03_covered_writes_keep_the_ownership_invariant.
+Print Assumptions C03_covered_writes_keep_the_ownership_invariant.
+
+(* resize within the capacity of the chain *)
+Theorem C03_covered_resizes_keep_the_ownership_invariant : ltac:(let t := type of covered_resize_dinv in exact t).
+Proof. exact covered_resize_dinv. Qed.
+Check C03_covered_resizes_keep_the_ownership_invariant.
+Print Assumptions C03_covered_resizes_keep_the_ownership_invariant.
+
+(* the reused sectors change owner from nobody to the stream; exact chain length *)
+Theorem C03_growth_into_reused_sectors_keeps_it : ltac:(let t := type of resize_big_grow_reuse_dinv in exact t).
+Proof. exact resize_big_grow_reuse_dinv. Qed.
+Check C03_growth_into_reused_sectors_keeps_it.
+Print Assumptions C03_growth_into_reused_sectors_keeps_it.
+
+(* the appended sectors were beyond the table *)
+Theorem C03_growth_by_appending_keeps_it : ltac:(let t := type of resize_big_grow_append_dinv in exact t).
+Proof. exact resize_big_grow_append_dinv. Qed.
+Check C03_growth_by_appending_keeps_it.
+Print Assumptions C03_growth_by_appending_keeps_it.
+
+(* the released sectors become FREE and lose their owner; the chain has exactly the new ceiling *)
+Theorem C03_shrinking_keeps_it : ltac:(let t := type of resize_big_shrink_dinv in exact t).
+Proof. exact resize_big_shrink_dinv. Qed.
+Check C03_shrinking_keeps_it.
+Print Assumptions C03_shrinking_keeps_it.
+
+(* histories of covered handle operations and queries on a file with data: wf_check = 0 at every prefix *)
+Theorem C03_images_of_data_histories_are_well_formed : ltac:(let t := type of wf_data_history in exact t).
+Proof. exact wf_data_history. Qed.
+Check C03_images_of_data_histories_are_well_formed.
+Print Assumptions C03_images_of_data_histories_are_well_formed.
+
+(* the same including set_state / set_clsid / set_created / set_modified *)
+Theorem C03_images_of_data_histories_with_metadata_calls : ltac:(let t := type of wf_data_history_meta in exact t).
+Proof. exact wf_data_history_meta. Qed.
+Check C03_images_of_data_histories_with_metadata_calls.
+Print Assumptions C03_images_of_data_histories_with_metadata_calls.
+
+(* non-vacuity: a 100-byte and a 5000-byte stream written through handles, version 3: DBase, DInv, Tidy and wf_check = 0 *)
+Theorem C03_data_images_example_small_and_large_v3 : ltac:(let t := type of DataWf.Examples.both_v3 in exact t).
+Proof. exact DataWf.Examples.both_v3. Qed.
+Check C03_data_images_example_small_and_large_v3.
+Print Assumptions C03_data_images_example_small_and_large_v3.
+
+(* version 4 *)
+Theorem C03_data_images_example_small_and_large_v4 : ltac:(let t := type of DataWf.Examples.both_v4 in exact t).
+Proof. exact DataWf.Examples.both_v4. Qed.
+Check C03_data_images_example_small_and_large_v4.
+Print Assumptions C03_data_images_example_small_and_large_v4.
+
+(* growth, shrinking, a crossing of the cutoff and both migrations *)
+Theorem C03_data_images_example_churn : ltac:(let t := type of DataWf.Examples.churn_v3 in exact t).
+Proof. exact DataWf.Examples.churn_v3. Qed.
+Check C03_data_images_example_churn.
+Print Assumptions C03_data_images_example_churn.
+
+(* non-vacuity of the shrink theorem on a concrete state *)
+Theorem C03_shrink_theorem_applies : ltac:(let t := type of DataWf.AllocExamples.shrink_applies in exact t).
+Proof. exact DataWf.AllocExamples.shrink_applies. Qed.
+Check C03_shrink_theorem_applies.
+Print Assumptions C03_shrink_theorem_applies.
+
+(* EVALUATION (not the general claim): all set_len sequences of depth 2 over {0,64,100,4095,4096,5000,9000} on two streams give accepted images *)
+Theorem C03_bounded_exhaustive_set_len_search : ltac:(let t := type of DataWf.Evaluated.explore2_v3 in exact t).
+Proof. exact DataWf.Evaluated.explore2_v3. Qed.
+Check C03_bounded_exhaustive_set_len_search.
+Print Assumptions C03_bounded_exhaustive_set_len_search.
